@@ -38,6 +38,8 @@ def confirm(src, sid, prop, crate):
         denv = dict(ENV, RUSTFLAGS="--cfg simple_dns_verif", CARGO_TARGET_DIR="/tmp/seedcheck-target-cfg" + SLOT) if crate == "simple-mdns" else ENV
         rc1, out1 = sh(f"cargo test -p {crate} {feat} --test demo_seeded --offline 2>&1 | tail -30", SCR, env=denv)
         p1, f1 = passed(out1)
+        # a demo whose process is killed (stack overflow, abort) has no "N failed" line: it failed all the same
+        if "process didn't exit successfully" in out1 and "signal" in out1: f1 = max(f1, 1)
         meta["demo_with_change"] = {"passed": p1, "failed": f1, "tail": out1[-600:]}
         sh(f"git apply -R {src}/patch.diff", SCR)
         rc2, out2 = sh(f"cargo test -p {crate} {feat} --test demo_seeded --offline 2>&1 | tail -30", SCR, env=denv)
